@@ -102,10 +102,17 @@ func newPfxCase(w *bufio.Writer, s0 uint64, kind string, seed int64) *pfxCase {
 	}
 	c.nbName = mustName("/net/nb")
 	c.pubEng = newFakeEngine(seed)
+	// a 3-component router name makes config.Parse's append leave spare capacity in the data prefix slice, so that
+	// publishOp / publishSnap append in place into one shared backing array
+	pubRouter := "/net/pub"
+	if strings.HasSuffix(kind, "3") {
+		pubRouter = "/net/site/pub"
+		kind = strings.TrimSuffix(kind, "3")
+	}
 	if kind == "r" {
 		cfg := config.DefaultConfig()
 		cfg.Network = "/net"
-		cfg.Router = "/net/pub"
+		cfg.Router = pubRouter
 		r, err := dv.NewRouter(cfg, c.pubEng)
 		if err != nil {
 			panic(err)
@@ -114,7 +121,7 @@ func newPfxCase(w *bufio.Writer, s0 uint64, kind string, seed int64) *pfxCase {
 		c.pubPT = r.Vf19Pfx()
 		c.pubRtr = r
 	} else {
-		c.pubCfg = mkConfig("/net/pub")
+		c.pubCfg = mkConfig(pubRouter)
 		svs := ndn_sync.NewSvSync(c.pubEng, c.pubCfg.PrefixTableSyncPrefix(), func(ndn_sync.SvSyncUpdate) {})
 		if s0 > 0 {
 			if err := svs.SetSeqNo(c.pubCfg.RouterName(), s0); err != nil {
@@ -406,6 +413,9 @@ func genPfxCase(w *bufio.Writer, rng *rand.Rand, k int, budget int) []string {
 	if rng.Intn(5) == 0 {
 		kind = "r"
 	}
+	if rng.Intn(3) == 0 {
+		kind += "3"
+	}
 	c := newPfxCase(w, s0, kind, rng.Int63())
 	s0 = c.pubPT.Vf19Me().Latest
 	var ops []string
@@ -414,7 +424,7 @@ func genPfxCase(w *bufio.Writer, rng *rand.Rand, k int, budget int) []string {
 	ops = append(ops, hdr)
 	c.obsPub()
 	do := func(op string) {
-		if kind == "r" && (strings.HasPrefix(op, "pa ") || strings.HasPrefix(op, "pw ")) && rng.Intn(2) == 0 {
+		if strings.HasPrefix(kind, "r") && (strings.HasPrefix(op, "pa ") || strings.HasPrefix(op, "pw ")) && rng.Intn(2) == 0 {
 			op = "r" + op[1:] // through the readvertise Interest handler
 		}
 		ops = append(ops, op)
